@@ -644,6 +644,9 @@ func goAdnlPingRace(a []string) string {
 			}
 			if len(p) == 12 && binary.LittleEndian.Uint32(p) == 0x4d082b9a {
 				r.pings++
+				// answer like a server does: without pongs the client's 10 s silence timer re-dials
+				pong := append([]byte{0x03, 0xfb, 0x69, 0xdc}, p[4:]...)
+				sc.sendPacket(bytes.Repeat([]byte{byte(r.pings)}, 32), pong)
 				continue
 			}
 			if len(p) != 16 {
